@@ -126,6 +126,22 @@ static C validThrift() {
   else c.call.sub = 0, c.call.in.assign(w.bytes.begin() + (long)w.footer_off, w.bytes.begin() + (long)(w.footer_off + w.footer_len));
   return c;
 }
+// length lists whose entries are each plausible but whose sum passes 2^32 (or 2^31): DELTA_LENGTH_BYTE_ARRAY /
+// DELTA_BYTE_ARRAY streams with a few data bytes behind them, a PLAIN byte-array page with such length prefixes
+static C hugeLengths() {
+  C c; c.call.fam = dc::DELTA; c.call.sub = *irange(2, 3);
+  int n = *irange(2, 7);
+  std::vector<int64_t> lens;
+  for (int i = 0; i < n; i++) lens.push_back(*rc::gen::element<int64_t>(INT32_MAX, INT32_MAX - 1, 1 << 30, (1 << 30) + 1, 1 << 29, 0x7ffffffc, 6, 0, 1, 1u << 31 >> 1));
+  Bytes enc = ref::delta_encode(lens, true);
+  if (c.call.sub == 3) { std::vector<int64_t> pre((size_t)n, 0); Bytes p = ref::delta_encode(pre, true); p.insert(p.end(), enc.begin(), enc.end()); enc = p; c.call.m = *rc::gen::element<int64_t>(0, 64, 1 << 20); }
+  Bytes tail = *gen::bytesGen(200);
+  enc.insert(enc.end(), tail.begin(), tail.end());
+  c.call.in = enc; c.call.n = n;
+  c.how = "huge_lengths";
+  return c;
+}
+
 // unknown containers nested D deep in front of the end of a struct: field 30 (long-form header) of the outer struct.
 //  kind 0: list<list<...<i32>>> - every level is the byte 0x19 (one element of type list)
 //  kind 1: struct{1: struct{1: ...}} - every level is 0x1C (field delta 1, type struct)
@@ -185,7 +201,7 @@ static rc::Gen<C> genC() {
       case dc::THRIFT: c = *irange(0, 5) == 0 ? deepThrift() : validThrift(); break;
       case dc::RLE: c = validRle(); break;
       case dc::PLAIN: c = validPlain(); break;
-      case dc::DELTA: c = validDelta(); break;
+      case dc::DELTA: c = *irange(0, 7) == 0 ? hugeLengths() : validDelta(); break;
       case dc::BSS: c = validBss(); break;
       case dc::DICT: c = validDict(); break;
       default: c = validCodec();
